@@ -12,12 +12,14 @@
   * `flatten_keeps_endpoints`       builder side: every original endpoint, exactly, in order, with
                                     its original attributes; sub-path marks untouched.
   * `iter_flatten_keeps_endpoints`  the same for `iterator::Flattened` and `for_each_flattened`.
-  * `flatten_attr_interp_witness`   FALSE as stated for the builder-side adapter: concrete
-                                    programs whose inserted points carry attributes interpolated
-                                    from stale `prev_attributes` (finding
-                                    `C16-flattened-begin-prev-attributes`).
-  * `flatten_attr_interp_partial`   true whenever no curve is the first edge of its sub-path …
-  * `for_each_flattened_attr_interp` … and always for the iterator-side `for_each_flattened`.
+  * `flatten_attr_interp`           builder side, EVERY program (curves that are the first edge of
+                                    a sub-path included): the adapter's output is the reference
+                                    flattening, whose inserted points carry (1−t)·a_from + t·a_to.
+                                    Was `…_partial` (first curve after `begin` excluded, with
+                                    kernel-checked counterexamples) until lyon commit babe4617
+                                    repaired finding `C16-flattened-begin-prev-attributes`; the
+                                    former witnesses are kept as a comment below.
+  * `for_each_flattened_attr_interp` the same for the iterator-side `for_each_flattened`.
   * `flatten_wellnested`            adapters map well-nested call sequences to well-nested ones.
   * `flatten_commutes_builder_iter` flattening while building = flattening while iterating.
   * `nesting_orders`                flatten∘transform and transform∘flatten keep the same
@@ -211,18 +213,25 @@ theorem flatten_step_interp (F : Flattener π K) (s : FlatB π K) (c p : π) (a 
       = (F.quad s.cur c p).map fun g => Call.line g.b (interp s.prev a g.t) := by
   simp [FlatB.step, emitLines_eq_specLines _ _ _ h, specLines]
 
-/-- `flatten_attr_interp`, the part that is true of the builder-side adapter: for every program
-in which no curve is the first edge of its sub-path (`noCurveAfterBegin`) and whose endpoints
-carry `n` attributes, the adapter's output IS the reference flattening `flatSpec`, in which
-every point inserted for a curve from an endpoint with attributes `a_from` to one with `a_to`
-carries `interp a_from a_to t = (1−t)·a_from + t·a_to` (`interp_is_lerp`).
-What is missing for the full statement: curves that directly follow `begin` — see the
-witnesses below. -/
-theorem flatten_attr_interp_partial (F : Flattener π K) (o : π) (n : Nat)
-    (prog : List (Call π (List K)))
-    (hlen : attrsLen n prog = true) (hnc : noCurveAfterBegin false prog = true) :
+/-- `flatten_attr_interp`: for EVERY program whose endpoints carry `n` attributes — curves that
+are the first edge of their sub-path included — the builder-side adapter's output IS the
+reference flattening `flatSpec`, in which every point inserted for a curve from an endpoint with
+attributes `a_from` to one with `a_to` carries `interp a_from a_to t = (1−t)·a_from + t·a_to`
+(`interp_is_lerp`) for the `t` the flattener reported. -/
+theorem flatten_attr_interp (F : Flattener π K) (o : π) (n : Nat)
+    (prog : List (Call π (List K))) (hlen : attrsLen n prog = true) :
     flatBuilder F o n prog = flatSpec F o n prog :=
-  partial_run F n false _ _ prog hlen hnc rfl (by simp [FlatB.init]) (fun _ => rfl)
+  full_run F n _ prog hlen (by simp [FlatB.init])
+
+/-- … and the reference flattening right after `begin` interpolates from the begin point's
+attributes: `begin p [a_from]; quad → q [a_to]` emits `interp a_from a_to t` at every reported
+`t` (the statement that was false before babe4617). -/
+theorem flatten_attr_interp_first_curve (F : Flattener π K) (o p c q : π) (n : Nat)
+    (a b : List K) (ha : a.length = n) (hb : b.length = n) :
+    flatBuilder F o n [.begin p a, .quad c q b]
+      = .begin p a :: (F.quad p c q).map fun g => Call.line g.b (interp a b g.t) := by
+  rw [flatten_attr_interp F o n _ (by simp [attrsLen, ha, hb])]
+  simp [flatSpec, FlatB.specRun, FlatB.specStep, specLines]
 
 /-- The iterator-side `for_each_flattened` is right for EVERY curve (first edge of a sub-path or
 not): the endpoints of the lines emitted for a curve event from `(a, fa)` to `(b, ta)` are the
@@ -276,7 +285,7 @@ theorem flatRun_events (F : Flattener π K) (G : IterFlattener π) (hF : EndsAtT
     | none =>
       cases c with
       | begin p a =>
-        have := ih (some (p, p)) ⟨p, s.prev⟩ (by simpa [wellNestedFrom] using hn)
+        have := ih (some (p, p)) ⟨p, a⟩ (by simpa [wellNestedFrom] using hn)
           (by intro f c h; cases h; rfl)
         simpa [FlatB.run, FlatB.step, specFrom, flatIter] using this
       | line p a => simp [wellNestedFrom] at hn
@@ -352,44 +361,41 @@ theorem nesting_orders_iter {π' : Type} (G : IterFlattener π) (G' : IterFlatte
 
 end Field
 
-/-! ## The defect: a curve directly after `begin` (builder side)
+/-! ## The repaired defect: a curve directly after `begin` (builder side)
 
 Evaluated on the model itself, over `ℚ`, with a two-segment flattener (midpoint at `t = 1/2`,
-then the end point at `t = 1`).  Positions are integers (irrelevant here). -/
+then the end point at `t = 1`).  Positions are integers (irrelevant here).
+
+Before lyon commit babe4617 (`Flattened::begin` did not copy the attributes into
+`prev_attributes`) the model mirrored the defect and these were theorems (`decide +kernel`):
+
+  flatten_attr_interp_witness :
+    flatBuilder midFlattener 0 1 [.begin 0 [10], .quad 3 10 [20], .end_ false]
+      = [.begin 0 [10], .line 5 [10], .line 10 [20], .end_ false]       -- 10 = ½·0 + ½·20, wanted 15
+  flatten_attr_interp_witness_stale :
+    flatBuilder midFlattener 0 1
+        [.begin 0 [1], .line 4 [7], .end_ false, .begin 0 [100], .cubic 1 2 10 [200], .end_ true]
+      = [.begin 0 [1], .line 4 [7], .end_ false, .begin 0 [100], .line 5 [207/2], .line 10 [200],
+         .end_ true]                                                    -- 103.5 = ½·7 + ½·200, wanted 150
+  flatten_attr_interp_after_line :  (a line before the curve: was already right)
+    flatBuilder midFlattener 0 1 [.begin 0 [10], .line 0 [10], .quad 3 10 [20], .end_ false]
+      = [.begin 0 [10], .line 0 [10], .line 5 [15], .line 10 [20], .end_ false]
+
+The same programs now evaluate as the property asks (they run as corpus/witness cases `wit` in
+the harness, too). -/
 
 /-- a flattener with one inserted point at `t = 1/2` -/
 def midFlattener : Flattener Int Rat where
   quad a _ b := [⟨a, (a + b) / 2, 1/2⟩, ⟨(a + b) / 2, b, 1⟩]
   cubic a _ _ b := [⟨a, (a + b) / 2, 1/2⟩, ⟨(a + b) / 2, b, 1⟩]
 
-/-- `flatten_attr_interp` is FALSE for the builder-side adapter: `begin (0)[10]; quad → (10)[20]`
-— the inserted point carries `10` (= ½·0 + ½·20, interpolated from the zeros `Flattened::new`
-put into `prev_attributes`), the property asks for `15` (= ½·10 + ½·20).  The endpoints
-themselves (`[10]`, `[20]`) are right. -/
-theorem flatten_attr_interp_witness :
+theorem flatten_attr_interp_repaired :
     flatBuilder midFlattener 0 1 [.begin 0 [10], .quad 3 10 [20], .end_ false]
-      = [.begin 0 [10], .line 5 [10], .line 10 [20], .end_ false] ∧
-    flatSpec midFlattener 0 1 [.begin 0 [10], .quad 3 10 [20], .end_ false]
-      = [.begin 0 [15 - 5], .line 5 [15], .line 10 [20], .end_ false] := by
-  decide +kernel
-
-/-- … and the stale value need not be zero: in a second sub-path it is the last endpoint of the
-previous one (`[7]`): the inserted point carries `103.5` instead of `150`. -/
-theorem flatten_attr_interp_witness_stale :
+      = [.begin 0 [10], .line 5 [15], .line 10 [20], .end_ false] ∧
     flatBuilder midFlattener 0 1
-        [.begin 0 [1], .line 4 [7], .end_ false, .begin 0 [100], .cubic 1 2 10 [200], .end_ true]
-      = [.begin 0 [1], .line 4 [7], .end_ false, .begin 0 [100], .line 5 [207/2], .line 10 [200],
-         .end_ true] ∧
-    flatSpec midFlattener 0 1
         [.begin 0 [1], .line 4 [7], .end_ false, .begin 0 [100], .cubic 1 2 10 [200], .end_ true]
       = [.begin 0 [1], .line 4 [7], .end_ false, .begin 0 [100], .line 5 [150], .line 10 [200],
          .end_ true] := by
-  decide +kernel
-
-/-- the same program with a line before the curve is flattened as the property asks -/
-theorem flatten_attr_interp_after_line :
-    flatBuilder midFlattener 0 1 [.begin 0 [10], .line 0 [10], .quad 3 10 [20], .end_ false]
-      = [.begin 0 [10], .line 0 [10], .line 5 [15], .line 10 [20], .end_ false] := by
   decide +kernel
 
 /-! ## Non-vacuity of the hypotheses -/
@@ -416,13 +422,12 @@ example : ∃ G : IterFlattener Int, EndsAtTo qFlattener ∧
    ⟨fun a _ b => ⟨[⟨a, a, 1/2⟩], a, rfl⟩, fun a _ _ b => ⟨[⟨a, a, 1/3⟩, ⟨a, a, 2/3⟩], a, rfl⟩⟩,
    fun _ _ _ => rfl, fun _ _ _ _ => rfl⟩
 
-/-- hypotheses of `flatten_attr_interp_partial` / `transform_commutes` on a program with a curve
-(second edge) and two attributes -/
-example : attrsLen 2 ([.begin (0:Int) [1, 2], .line 1 [3, 4], .quad 2 3 [5, 6], .end_ true]
-      : List (Call Int (List Rat))) = true ∧
-    noCurveAfterBegin false ([.begin (0:Int) [1, 2], .line 1 [3, 4], .quad 2 3 [5, 6], .end_ true]
+/-- hypothesis of `flatten_attr_interp` on a program with a curve as FIRST edge and two
+attributes -/
+example : attrsLen 2 ([.begin (0:Int) [1, 2], .quad 2 3 [5, 6], .line 1 [3, 4], .end_ true]
       : List (Call Int (List Rat))) = true := by decide
 
+/-- hypotheses of `transform_commutes` -/
 example : WellNested ([.begin ((0:Int), (0:Int)) [1], .cubic (1, 1) (2, 2) (3, 0) [2], .end_ true]
       : List (Call (Pt Int) (List Int))) ∧
     attrsOk 1 ([.begin ((0:Int), (0:Int)) [1], .cubic (1, 1) (2, 2) (3, 0) [2], .end_ true]
